@@ -172,11 +172,15 @@ class Normaliser:
     """Normalises scalar expressions of one function; locals are inlined through `env`."""
 
     def __init__(self, qualify: Callable[[str], str], env: dict[str, ast.expr] | None = None,
-                 self_name: str | None = None) -> None:
+                 self_name: str | None = None, inliner: "Callable[[Normaliser, ast.Call], Rat | None] | None" = None) -> None:
         self.qualify = qualify
         self.env = env or {}
         self.self_name = self_name
         self._active: set[str] = set()
+        # `inliner` replaces a call to a straight-line repository helper by the helper's returned expression;
+        # `opaque` collects the repository callees that appear in a form but could not be inlined
+        self.inliner = inliner
+        self.opaque: set[str] = set()
 
     # -- public -------------------------------------------------------------
     def rat(self, e: ast.expr) -> Rat:
@@ -186,6 +190,8 @@ class Normaliser:
                 return Rat(p_atom(repr(v)))
             return Rat(p_const(Fraction(str(v))))
         if isinstance(e, ast.Name):
+            if isinstance(self.env.get(e.id), Rat):
+                return self.env[e.id]  # parameter of an inlined helper, bound to the caller's argument
             if e.id in self.env and e.id not in self._active:
                 self._active.add(e.id)
                 try:
@@ -205,6 +211,8 @@ class Normaliser:
             return self._call(e)
         if isinstance(e, ast.Attribute):
             d = dotted(e)
+            if d and isinstance(self.env.get(d.split(".")[0]), Rat):
+                d = None
             if d:
                 if d in self.env and d not in self._active:
                     self._active.add(d)
@@ -286,6 +294,10 @@ class Normaliser:
         return Rat(p_atom(f"pow({base},{exp})"))
 
     def _call(self, e: ast.Call) -> Rat:
+        if self.inliner is not None:
+            inl = self.inliner(self, e)
+            if inl is not None:
+                return inl
         fn = e.func
         args = list(e.args)
         kws = {k.arg: k.value for k in e.keywords if k.arg}
